@@ -18,7 +18,7 @@ RULE = ('cases = TT tensors / TT matrices of order 1..6, f32/f64/c64/c128, obtai
         'storage ranges; the others have the same dense value (converted dtype for to()). distinct = (source, op, structure, dtype); all non-trivial.')
 ASSUMPTIONS = ['the unpickling policy is whatever the installed torch enforces (weights_only default) - that is the environment users have']
 REQUIRED_REACH = ['_extras:save', '_extras:load', '_tt_base:TT.clone', '_tt_base:TT.detach', '_tt_base:TT.cpu', '_tt_base:TT.to', '_tt_base:TT.numpy']
-REQUIRED_COUNTS = {'op:saveload': 1, 'op:clone': 1, 'op:detach': 1, 'op:cpu': 1, 'op:to': 1, 'op:numpy': 1, 'source:svd': 1, 'source:slice': 1, 'source:transpose': 1,
+REQUIRED_COUNTS = {'op:saveload': 1, 'op:clone': 1, 'clone_independence_histories': 20, 'op:detach': 1, 'op:cpu': 1, 'op:to': 1, 'op:numpy': 1, 'source:svd': 1, 'source:slice': 1, 'source:transpose': 1,
                    'source:round': 1, 'loaded_cores_bit_identical': 10}
 SOURCES = ['cores', 'svd', 'svd_ttm', 'slice', 'transpose', 'conj', 'round', 'sum']
 OPS = ['saveload', 'clone', 'detach', 'detach_tracked', 'cpu', 'to', 'numpy']
@@ -139,6 +139,36 @@ def run_case(case, ctx):
             return (st.data_ptr(), st.data_ptr() + st.nbytes())
         if any(p[0] < q[1] and q[0] < p[1] for p in [rng_of(c) for c in x.cores if c.numel()] for q in [rng_of(c) for c in y.cores if c.numel()]):
             ctx.viol(key + '/clause=shares-storage', what)
+        # independence history: an in-place set_core on one of the two (changing a mode size) must leave the other exactly as it was -
+        # metadata lists, cores and dense value (an object that shares its N/M/R lists with its clone shares state, whatever the core storage)
+        rr = random.Random(case['seed'] + 19)
+        k = rr.randrange(len(x.N))
+        modify_clone = rr.random() < 0.5
+        tgt, other = (y, x) if modify_clone else (x, y)
+        sh = list(tgt.cores[k].shape)
+        sh[1] = sh[1] + rr.choice((1, 2))
+        if tgt.is_ttm and rr.random() < 0.5:
+            sh[2] = sh[2] + 1
+        newcore = gens.values(sh, tgt.cores[k].dtype, 'gauss', g)
+        r = ctx.lib('set_core', lambda t: t.set_core(k, newcore), tgt, inplace=(tgt,))
+        if isinstance(r, Raised):
+            ctx.count('set_core_refused')
+        else:
+            ctx.count('clone_independence_histories')
+            meta1 = (bool(other.is_ttm), list(other.N), list(other.M) if other.is_ttm else None, [int(r_) for r_ in other.R], [c.dtype for c in other.cores])
+            side = 'original-after-modifying-clone' if modify_clone else 'clone-after-modifying-original'
+            if meta1 != meta0:
+                ctx.viol(key + '/clause=shares-state(metadata)', '%s; then set_core(%d, core of shape %s) on the %s: the %s now reports %s (was %s)' % (
+                    what, k, sh, 'clone' if modify_clone else 'original', 'original' if modify_clone else 'clone', meta1, meta0))
+            elif not _same_cores([c.detach() for c in other.cores], cores0):
+                ctx.viol(key + '/clause=shares-state(cores)', '%s; %s' % (what, side))
+            else:
+                try:
+                    same = dn.bit_equal(dn.D(other), ref)
+                except ValueError as e:
+                    same = False
+                if not same:
+                    ctx.viol(key + '/clause=shares-state(value)', '%s; %s' % (what, side))
     elif op in ('detach', 'detach_tracked'):
         if op == 'detach_tracked':
             ctx.call('watch', lambda t: [c.requires_grad_(True) for c in t.cores if c.is_leaf and (c.is_floating_point() or c.is_complex())], x, inplace=(x,))
